@@ -64,6 +64,11 @@ def run_case(case, ctx):
     import pandas as pd
     from pyg_base import Bi, bi_merge, bi_read
     dates = [T0 + DAY * i for i in range(case['ndates'])]
+    if case.get('forecast') and not case.get('future'):
+        dates = [T0 + DAY * (200 + i) for i in range(case['ndates'])]       # observation dates that lie AFTER every publication stamp and read time (forecasts, schedules): rows like any other
+        ctx.cls('observation_dates_after_the_stamps')
+    if case.get('now_stamps'):
+        return run_now(case, ctx, dates)
     store = None
     ledger = {}
     stamps = []
@@ -112,7 +117,13 @@ def run_case(case, ctx):
             st, merged = ctx.call(bi_merge, s1_, s2_, asof=t2_, existing_data=t1_)
             ctx.cls('history_started_with_existing_data')
         else:
-            st, merged = ctx.call(bi_merge, store, bs[0] if len(bs) == 1 else list(bs))     # several versions handed over together, in order
+            if len(bs) > 1 and case.get('mixed_spelling') and len({versions[-k_ - 1][0] for k_ in range(len(bs))}) == 1 and not any(case['versions'][g_].get('as_frame') for g_ in grp):
+                # versions sharing one stamp handed over in one list, some already stamped (Bi), some plain with asof = that stamp: the list order is the merge order
+                items = [b_ if (j_ + case['mixed_spelling']) % 2 else versions[-len(bs) + j_][1] for j_, b_ in enumerate(bs)]
+                st, merged = ctx.call(bi_merge, store, items, asof=versions[-1][0])
+                ctx.cls('one_merge_mixing_stamped_and_plain_versions')
+            else:
+                st, merged = ctx.call(bi_merge, store, bs[0] if len(bs) == 1 else list(bs))     # several versions handed over together, in order
         if st == 'ok':
             okb = [(list(b.index), _vl(b)) for b in bs] == snap_b and (store is None or (list(store.index), _vl(store)) == (snap_s[0], _nl(snap_s[1])))
             ctx.check('merge_operands_unchanged', okb, lambda: 'bi_merge modified the store or the new version it was given')
@@ -165,6 +176,50 @@ def run_case(case, ctx):
     if revert:
         ctx.cls('revert')
     ctx.maxstat('max_store_rows', rows_max)
+
+
+def run_now(case, ctx, dates):
+    """publications stamped by the clock (bi_merge's default asof = 'now'): each stamp lies between the clock readings taken around its call, and a read
+    at a clock reading taken between two publications sees exactly the earlier ones"""
+    import pandas as pd, time
+    from pyg_base import bi_merge, bi_read, Bi
+    store, ledger, stamps, marks = None, {}, [], []
+    for vi, ver in enumerate(case['versions'][:4]):
+        idx = [dates[i] for i in ver['idx']]
+        vals = [float('nan') if v is None else float(v) for v in ver['vals']]
+        s = pd.Series(vals, index=pd.DatetimeIndex(idx), dtype=float)
+        time.sleep(0.002)
+        t_before = datetime.datetime.now()
+        how = (vi + case['now_stamps']) % 3
+        st, merged = ctx.call(bi_merge, store, s) if how == 0 else ctx.call(bi_merge, store, s, 'now') if how == 1 else ctx.call(bi_merge, store, Bi(s, 'now'))
+        t_after = datetime.datetime.now()
+        time.sleep(0.002)
+        ctx.monitors['no_lookahead_rows'] += 1
+        if st != 'ok':
+            ctx.fail('no_lookahead_rows', "bi_merge(store, version %d) stamped 'now' raised %s" % (vi, core.exc_str(merged)))
+            return
+        store = merged if vi else (merged if 'updated' in getattr(merged, 'columns', []) else Bi(merged, t_after))
+        new_stamps = [u.to_pydatetime() for u in pd.to_datetime(store['updated']) if u.to_pydatetime() > (marks[-1] if marks else datetime.datetime(1900, 1, 1))]
+        if not all(t_before <= u <= t_after for u in new_stamps):
+            ctx.fail('no_lookahead_rows', "version %d was published 'now' between %s and %s but the rows added carry the stamps %s (earlier ones: %s)" % (vi, t_before, t_after, sorted(set(new_stamps))[:3], stamps[-2:]))
+            return
+        stamp = max(new_stamps) if new_stamps else t_before       # (a version that repeats what the store holds adds no row: any stamp inside the interval reads the same)
+        stamps.append(stamp); marks.append(t_after)
+        for d, v in zip(idx, vals):
+            ledger.setdefault(d, []).append((stamp, v))
+        # reads at the clock readings taken between the publications so far
+        for k_, T in enumerate(marks):
+            for what in (-1, 0):
+                st2, res = ctx.call(bi_read, store, T, what)
+                exp = ledger_read(ledger, T, what)
+                mon = 'asof_read_last' if what == -1 else 'asof_read_first'
+                ctx.monitors[mon] += 1
+                got = None if st2 != 'ok' else {t.to_pydatetime(): v for t, v in zip(res.index, (res.values.reshape(-1).tolist() if hasattr(res, 'values') else []))}
+                if st2 != 'ok' or set(got) != set(exp) or any(not ((isn(got[d]) and isn(exp[d])) or got[d] == exp[d]) for d in exp):
+                    ctx.fail(mon, "stamps taken from the clock ('now'): bi_read(asof = the clock reading after publication %d, what=%d) = %s, the ledger of what had been published by then says %s" % (k_, what, got if st2 == 'ok' else res, exp))
+                    return
+    ctx.cls('stamps_taken_from_the_clock')
+    ctx.mark_nontrivial(case)
 
 
 def _nl(rows):
@@ -270,6 +325,12 @@ def gen_case(rng):
     elif rng.random() < 0.25 and nv >= 2 and versions[0]['stamp'] != versions[1]['stamp']:
         case['batch'] = [2] + [1] * (nv - 2)
         case['start_plain'] = True
+    if rng.random() < 0.25:
+        case['forecast'] = True
+    if case.get('batch') and rng.random() < 0.6:
+        case['mixed_spelling'] = rng.choice([1, 2])
+    if rng.random() < 0.08:
+        case['now_stamps'] = rng.choice([1, 2, 3])
     return case
 
 
